@@ -69,6 +69,14 @@ def variants(rng, am):
         m = copy.deepcopy(am)
         m["attrs"][extra] = "x"
         yield f"param-named-attribute:{extra}", m
+    # a field that is constrained on OTHER kinds, given to this one with a word outside its vocabulary (perm on a light definition,
+    # rule on a text definition, state on getProperties ...): ignored is fine, kept with that word is not
+    for a in ("state", "perm", "rule"):
+        if a not in spec["vocab"]:
+            for v in ("bogus", "RW", "None"):
+                m = copy.deepcopy(am)
+                m["attrs"][a] = v
+                yield f"foreign-field:{a}={v}", m
     m = copy.deepcopy(am)
     m["tag"] = am["tag"] + "X"
     yield "unknown-tag", m
